@@ -39,6 +39,21 @@ for c in checks:
     r = sh("cd %s && VERIF_REPO=%s VERIF_NO_EVIDENCE=1 ./check %s --tier quick" % (HERE, wt, c))
     lines = [l for l in r.stdout.splitlines() if l.startswith("VIOLATION") or l.startswith("  ")]
     res[c] = {"exit": r.returncode, "first_violation": " | ".join(lines[:2])[:400]}
+    # keep the first replayable counterexample as a regression case (replay tier of saved inputs), provided that it
+    # still fails on the seeded tree and passes on the unchanged tree when replayed on its own
+    for l in r.stdout.splitlines():
+        if l.startswith("VIOLATION") and "replay=" in l:
+            src = os.path.join("/tmp/verif-scratch-out", l.split("replay=")[1].strip())
+            if not os.path.exists(src):
+                continue
+            bad = sh("cd %s && VERIF_REPO=%s ./check %s --replay %s" % (HERE, wt, c, src))
+            good = sh("cd %s && ./check %s --replay %s" % (HERE, c, src))
+            if bad.returncode == 1 and good.returncode == 0:
+                dst = os.path.join(HERE, "regressions", c)
+                os.makedirs(dst, exist_ok=True)
+                shutil.copy(src, os.path.join(dst, name + ".json"))
+                res[c]["regression_case"] = "regressions/%s/%s.json" % (c, name)
+                break
 meta["checks_quick"] = res
 meta["detected_by"] = [c for c, v in res.items() if v["exit"] == 1]
 out = os.path.join(HERE, "seeded", name)
